@@ -258,7 +258,10 @@ type execEnv struct {
 	release []func()
 }
 
-func execute(c Case) (o observed) {
+func execute(c Case) observed { return executeOn(nil, c) }
+
+// executeOn runs the case on the given Runtime (nil: a fresh one with spied producers).
+func executeOn(rt *client.Runtime, c Case) (o observed) {
 	var req *http.Request
 	x := &execEnv{}
 	defer func() {
@@ -273,9 +276,11 @@ func execute(c Case) (o observed) {
 		}
 		o.delivered, o.lies = x.stats.delivered.Load(), x.stats.lies.Load()
 	}()
-	rt := newRuntime()
-	for mt, p := range rt.Producers {
-		rt.Producers[mt] = spy{mt, p, &o.producers}
+	if rt == nil {
+		rt = newRuntime()
+		for mt, p := range rt.Producers {
+			rt.Producers[mt] = spy{mt, p, &o.producers}
+		}
 	}
 
 	var setupErr error
